@@ -22,6 +22,7 @@ COUNTS = Counter()          # per-case, folded into the shard counters by end_ca
 LEAVES = {}                 # id(node) -> (leaf_ast, parity, xs, holds)   filled by build.py
 LEAF_MISMATCHES = []        # per-case
 RETRIEVE_EVENTS = []        # per-case: 'exact' | 'known_deviation' | 'other_deviation'
+RETRIEVE_HIDDEN = []        # per-case: for every deviating retrieve the outputs of the entries it did not return
 FORCE_DEDUP_OFF = False
 FORCE_SPEC_RETRIEVE = False  # counterfactual for K05: retrieve answers exactly what C20 specifies (removes K20 only)
 _LINES = set()
@@ -35,6 +36,7 @@ def begin_case():
     _KEEP.clear()
     LEAF_MISMATCHES.clear()
     RETRIEVE_EVENTS.clear()
+    RETRIEVE_HIDDEN.clear()
     global FORCE_DEDUP_OFF, FORCE_SPEC_RETRIEVE
     FORCE_DEDUP_OFF = False
     FORCE_SPEC_RETRIEVE = bool(os.environ.get("EQL_EXPERIMENT_SPEC_RETRIEVE"))   # experiments only, never set by ./check
@@ -301,6 +303,9 @@ def _attach_cache():
                         ev = "other_deviation"
                     COUNTS["cache.retrieve." + ev] += 1
                     RETRIEVE_EVENTS.append(ev)
+                    if ev != "exact":
+                        RETRIEVE_HIDDEN.append((sorted(o_ for _, o_ in (exp - g).elements()),
+                                                sorted(o_ for _, o_ in (g - exp).elements())))
                 else:
                     COUNTS["cache.retrieve.abandoned"] += 1
         else:
